@@ -369,8 +369,12 @@ def judge(run, outcome, fired, before, after, ref):
     notes["fault_before_write_window"] = 1
     if untouched:
         return None, notes
-    # a fault on a secondary output may come after the PQR was completed
-    if complete and "close" in (run.get("_out_events") or []):
+    # a fault on a secondary output may come after the PQR was completed; if the seam never
+    # saw the output being opened at all (written through a channel it does not wrap), the
+    # observable "the PQR is the complete one" has to be enough -- a gap in the
+    # instrumentation must not raise an alarm (DESIGN 2.3)
+    oev = run.get("_out_events") or []
+    if complete and ("close" in oev or not oev):
         notes["fault_after_write_window"] = 1
         return None, notes
     return v("failed-run-modified-output",
